@@ -13,8 +13,8 @@ for d in sorted(glob.glob('/tmp/seedout/C???')):
     if not os.path.exists(mp): continue
     meta=json.load(open(mp))
     sl=os.path.join(root,'scratch/seedlogs',n+'.log'); ul=os.path.join(root,'scratch/suitelogs',n+'.log')
-    det=open(sl).read() if os.path.exists(sl) else ''
-    suite=open(ul).read() if os.path.exists(ul) else ''
+    det=open(sl,errors='replace').read() if os.path.exists(sl) else ''
+    suite=open(ul,errors='replace').read() if os.path.exists(ul) else ''
     m=re.search(r'SEED \S+ prop=(\S+) applies=(\S+) builds=(\S+) suite=\S+ demo_clean=(\S+) demo_changed=(\S+) check=(\S+)',det)
     if not m: print('no detection result for',n); continue
     prop,applies,builds,dc,dch,chk=m.groups()
@@ -50,4 +50,5 @@ with open(os.path.join(root,'seeded','TABLE.md'),'w') as f:
         if len(needs)>150: needs=needs[:147]+'…'
         files=', '.join(os.path.basename(x) for x in (meta.get('files') or []))
         s=('caught: '+', '.join(x.strip('"') for x in sigs[:2])) if chk=='DETECTED' else '**missed** ('+chk+')'
-        f.write(f'| {n} | {prop} | {files} | {needs} | {s.replace("|","\\|")[:200]} |\n')
+        cell = s.replace("|", "\\|")[:200]
+        f.write('| %s | %s | %s | %s | %s |\n' % (n, prop, files, needs, cell))
